@@ -193,7 +193,10 @@ theorem hk_holdDemand {h : Hook} {f0 : Bool} {w : W} (hk : HK h f0 w)
     · rename_i h1 h2
       have := hpre (by simpa using h1) h2
       unfold HK at *; cases h <;> simp_all [flag, alt_append, alt, emit, upd]
-    · exact hk
+    · unfold onDemandPublisherWaitAgain
+      dsimp only
+      unfold HK at *
+      cases h <;> (repeat' split) <;> simp_all [flag, emit, upd]
 
 theorem hk_subErrCleanup {h : Hook} {f0 : Bool} {w : W} (hk : HK h f0 w) : HK h f0 (subErrCleanup w) := by
   unfold subErrCleanup; split
